@@ -248,13 +248,14 @@ CHECK = {
             "them) and tangent sets (k0 in [0.99,1]) on ellipsoids with e in {0, 0.1, GRS80, random}; points within +-8 deg / +-30 deg "
             "of the origin incl. the standard parallels, the origin, the central meridian and the domain ends; isometric-latitude "
             "round trips; non-trivial = every output finite",
-    "trusted": ["translator translate/srcfuns.py (clang AST of pure leaf functions -> Gallina)", "hand-written model coq/LambertModel.v tied by differential execution (this run)",
+    "trusted": ["translator translate/srcfuns.py (clang AST of pure leaf functions -> Gallina)",
+                "translator translate/tr_C03_ctor.py + translate/imptrans.py (clang AST of the four constructors -> the data members they leave; struct fields read as the model's record fields)", "hand-written model coq/LambertModel.v tied by differential execution (this run)",
                 "translator translate/constants.py (EPSILON, pole-test constant 1e-9)", "extraction, ocaml/numf.ml, ocaml/drv_C03.ml",
                 "harness/C03.cpp with a per-call CPU-time limit (harness/geoA.hpp), mpmath oracle (5-point differentiation, tolerance 2e-8)"],
     "assumptions": ["theorems are over the reals; binary64 behaviour is observed on generated inputs", "std::pow(x,2) is modelled as x*x"],
     "run_timeout": 1200,
     "manifest": {
-        "text": "SYNTACTIC TIE: computeIsometricLatitude, computeGrandeNormal, toLambert, the two EarthEllipsoid radii, and the iterative inverse (computeLatitude's for(;;) loop as a fuelled fix, toWGS84) and both computeProjectionParameters overloads are re-translated from the clang AST of the current source into Gallina terms on every run (translate/srcfuns.py -> coq/gen/SrcFunsC03.v) and proved equal, over the reals, to the model functions the theorems are about. Coq theorems over the reals about a model of LambertConverter: derivative of the isometric latitude (Coquelicot), "
+        "text": "SYNTACTIC TIE: computeIsometricLatitude, computeGrandeNormal, toLambert, the two EarthEllipsoid radii, and the iterative inverse (computeLatitude's for(;;) loop as a fuelled fix, toWGS84) and both computeProjectionParameters overloads are re-translated from the clang AST of the current source into Gallina terms on every run (translate/srcfuns.py -> coq/gen/SrcFunsC03.v) and proved equal, over the reals, to the model functions the theorems are about. SYNTACTIC TIE OF THE CONSTRUCTORS: the four constructors of LambertConverter are re-translated on every run (translate/tr_C03_ctor.py, on the library translate/imptrans.py -> coq/gen/SrcLambertCtor.v) into the tuple of the six data members they leave; the class must have exactly these members and constructors; coq/SrcTieC03Ctor.v proves, for every numeric dictionary, that a converter built from secant / tangent parameters and an ellipsoid holds computeProjectionParameters(parameters, ellipsoid) and the ellipsoid's first eccentricity e (not e2) — C03_source_tie_constructors, _plain_constructors — and, over the reals, that the source's toLambert on the members the source's constructors store is the model's toLambert (C03_source_tie_constructed_converter, and the same for the inverse toWGS84, _inverse). Coq theorems over the reals about a model of LambertConverter: derivative of the isometric latitude (Coquelicot), "
                 "the partial derivatives of toLambert are orthogonal and give equal scale along meridian and parallel (conformal), "
                 "scale 1 on both standard parallels / k0 on the tangent parallel, origin -> false origin, central meridian -> x = x0, "
                 "toWGS84 recovers isometric latitude and longitude exactly on cones of either hemisphere, the true latitude is a "
@@ -265,6 +266,6 @@ CHECK = {
         "note": "Trusted: Coq kernel, real-number axioms, hand-written model, extraction, float dictionary, harness, oracle. "
                 "Float rounding/libm observed, not proved; numerical differentiation tolerance 2e-8. Termination of the latitude loop is proved over "
                 "the reals (8 passes for e <= 0.1); in binary64 it is observed (HANG outcome).",
-        "technique": "Coq proof (Coquelicot derivatives, field/nra) + correspondence run + mpmath oracle",
+        "technique": "Coq proof (Coquelicot derivatives, field/nra; symbolic execution of the constructors + tie lemmas by computation) + correspondence run + mpmath oracle",
     },
 }
